@@ -9,13 +9,17 @@ PRINTABLE_EPS = ["ε", "_", "e"]
 
 @st.composite
 def text_specs(draw, kind, max_states=4):
+    # state names that are declaration keywords of *other* automaton kinds are ordinary names for this kind
+    other = {"dfa": ["accept", "reject", "blank", "epsilon", "tape_symbols", "stack_symbols"], "nfa": ["accept", "reject", "blank", "tape_symbols", "stack_symbols"],
+             "pda": ["accept", "reject", "blank", "tape_symbols"], "tm": ["epsilon", "stack_symbols"]}[kind]
+    pool = G.POOL[:10] + other if draw(st.integers(0, 4)) == 0 else G.POOL
     if kind == "dfa":
-        return draw(G.dfa_specs(max_states=max_states, max_sigma=3))
+        return draw(G.dfa_specs(max_states=max_states, max_sigma=3, pool=pool))
     if kind == "nfa":
-        return draw(G.nfa_specs(max_states=max_states, max_sigma=2, eps_choices=PRINTABLE_EPS))
+        return draw(G.nfa_specs(max_states=max_states, max_sigma=2, eps_choices=PRINTABLE_EPS + ["eps", "lambda"], pool=pool))
     if kind == "pda":
-        return draw(GP.pda_specs(max_states=max_states, max_trans=6, eps_choices=PRINTABLE_EPS, min_trans=0))
-    spec = draw(GT.tm_specs(max_states=max_states, halting_initial=True))
+        return draw(GP.pda_specs(max_states=max_states, max_trans=6, eps_choices=PRINTABLE_EPS, min_trans=0, pool=pool))
+    spec = draw(GT.tm_specs(max_states=max_states, halting_initial=True, pool=pool))
     k = draw(st.integers(0, 2))
     if k == 0:
         # default names for the halting states, as in the shipped examples
